@@ -69,22 +69,23 @@ class Req:
         self.__dict__.update(kw)
 
 
-def gen_scenario(ch: Choices, calm: bool) -> Dict[str, Any]:
-    n_apps = 1 if calm else 1 + ch.draw(2, "napps")
+def gen_scenario(ch: Choices, calm: bool, tier: str = "quick") -> Dict[str, Any]:
+    deep = (not calm) and tier == "thorough" and ch.flag(1, 2, "deep")   # deeper bounds in half of the thorough runs
+    n_apps = 1 if calm else 1 + ch.draw(3 if deep else 2, "napps")
     apps = []
     next_sock = 0
     for a in range(n_apps):
-        n_socks = 1 + ch.draw(2, "nsocks")
+        n_socks = 1 + ch.draw(3 if deep else 2, "nsocks")
         socks = []
         for _ in range(n_socks):
             socks.append({"sock": next_sock, "remote": GHOSTS[ch.draw(2, "remote")], "rsock": next_sock + 10})
             next_sock += 1
-        n_subs = 1 + ch.draw(2, "nsubs")
+        n_subs = 1 + ch.draw(4 if deep else 2, "nsubs")
         subs = []
         addr = 0
         vnext = 0
         for s in range(n_subs):
-            n_req = 1 + ch.weighted([2, 3, 2], "nreq")
+            n_req = 1 + ch.weighted([2, 3, 2, 2, 1] if deep else [2, 3, 2], "nreq")
             reqs = []
             key_type: Dict[Tuple[int, str], str] = {}
             for j in range(n_req):
@@ -350,7 +351,7 @@ def run(ch: Choices, opts: Dict[str, Any]) -> Dict[str, Any]:
         d[k] = d.get(k, 0) + n
 
     bump(probes, "legacy-tuples" if legacy else "qlink-objects")
-    sc = gen_scenario(ch, calm)
+    sc = gen_scenario(ch, calm, tier=opts.get("tier", "quick"))
     if len(sc["apps"]) > 1:
         bump(probes, "two-apps-concurrent")
     if slow_link:
